@@ -78,9 +78,9 @@ def expand(op, blk):
     raise RuntimeError(k)
 
 
-def make_case(cfgv, blk, ops, tag):
+def make_case(cfgv, blk, ops, tag, dids=None):
     calls = [c for op in ops for c in expand(op, blk)]
-    h = cl.H(cfgv, dids=DIDS)
+    h = cl.H(cfgv, dids=DIDS if dids is None else dids)
     ints = [len(h.cfg)] + h.cfg + [blk, len(calls)]
     blobs = []
     for callid, args, bl in calls:
@@ -177,6 +177,21 @@ def gen_cases(tier, seed):
             yield make_case(cfgv, 0x20, [('read_dids', [0x1234]), ('write_did', 0xF190, b'ABC'), ('write_did', 0x0102, b'\x07'), ('write_did', 0x1234, b'\x12\x34'),
                                          ('read_dids', [0xF190, 0x0102, 0x1234]), ('write_did', 0xF190, b'\x00\xff\x80'), ('read_dids', [0x1234, 0xF190]),
                                          ('write_did', 0xFFFF, b'tail'), ('read_dids', [0x0102])], 'DID round trip / codec form %d' % form)
+    # identifiers served by the 'default' entry of the table (a codec instance of fixed length / of length 0 / that takes whatever is left):
+    # what is written under such an identifier is read back like under a listed one
+    for ex in (1, 0):
+        cfgv = list(cl.DEFAULT_CFG)
+        cfgv[cl.EX_NEG] = ex
+        yield make_case(cfgv, 0x20, [('write_did', 0xF190, b'ABC'), ('write_did', 0x0102, b'\x07\x08'), ('write_did', 0x0999, b'ab'), ('read_dids', [0x0102]),
+                                     ('read_dids', [0x0999, 0xF190, 0x0102]), ('write_did', 0x0999, b'\x00\x00'), ('read_dids', [0xF190, 0x0999])],
+                        'DID round trip / default codec of fixed length', dids=[(0xF190, 3), (-1, 2)])
+        yield make_case(cfgv, 0x20, [('write_did', 0xF190, b'ABC'), ('write_did', 0x0102, b'\x07'), ('write_did', 0x1234, b'\x12\x34\x56'), ('read_dids', [0x0102]),
+                                     ('read_dids', [0xF190, 0x1234]), ('write_did', 0x0102, b''), ('read_dids', [0xF190, 0x0102]), ('write_did', 0x0000, b'zero'),
+                                     ('read_dids', [0x0000])],
+                        'DID round trip / default codec that reads all', dids=[(0xF190, 3), (-1, -1)])
+        yield make_case(cfgv, 0x20, [('write_did', 0xF190, b'ABC'), ('write_did', 0x0777, b''), ('read_dids', [0xF190, 0x0777]), ('read_dids', [0x0777]),
+                                     ('read_dids', [0x0777, 0xF190])],
+                        'DID round trip / default codec of length 0', dids=[(0xF190, 3), (-1, 0)])
     for it in range(n):
         cfgv = list(cl.DEFAULT_CFG)
         cfgv[cl.SRV_ADDR] = rnd.choice([-1, 16, 32, 64])
